@@ -231,6 +231,34 @@ func TestC02(t *testing.T) {
 		}
 		ts := a.Times
 		o := &verify.Options{TrustedRoots: pool, Now: &ts, Getter: gen.FailGetter{}}
+		// in a third of the cases collateral (and revocation) checking is on, and the collateral served is the genuine,
+		// matching collateral OF THE TRUSTED PKI (what an attacker can simply replay): trust in the quote's chain must not
+		// follow from the collateral being good
+		lvl := rapid.SampledFrom([]gen.Level{gen.LvlBase, gen.LvlBase, gen.LvlBase, gen.LvlColl, gen.LvlCRL}).Draw(t, "level")
+		if lvl != gen.LvlBase {
+			cp := a.PKI
+			hasA := false
+			for _, pc := range poolCerts {
+				if pc == a.PKI.Root {
+					hasA = true
+				}
+			}
+			if !hasA && len(poolCerts) > 0 {
+				switch poolCerts[0] {
+				case b.PKI.Root:
+					cp = b.PKI
+				case c.Root:
+					cp = c
+				}
+			}
+			cw := *a
+			cw.PKI = cp
+			cw.Leaf = a.Leaf
+			cw.BuildCollateral()
+			o.Getter = cw.NewGetter()
+			o.GetCollateral, o.CheckRevocations = true, lvl == gen.LvlCRL
+			gen.Class("level:" + lvl.String())
+		}
 		at := a.Times.PckCertChain
 		if rapid.IntRange(0, 2).Draw(t, "defaultTimeSet") == 0 {
 			// the default time set (Options.Now == nil): every generated certificate is valid at the real current time
@@ -394,9 +422,15 @@ func TestC02(t *testing.T) {
 			return out
 		}
 		for i := 0; i < nFiles; i++ {
-			if rapid.IntRange(0, 9).Draw(t, "missing") == 0 {
+			switch rapid.IntRange(0, 9).Draw(t, "missing") {
+			case 0:
 				rot.CabundlePaths = append(rot.CabundlePaths, filepath.Join(dir, "does-not-exist.pem"))
 				broken = "missing file"
+				continue
+			case 1:
+				// a path entry that names nothing: blank or white space only
+				rot.CabundlePaths = append(rot.CabundlePaths, rapid.SampledFrom([]string{"", " ", "   ", "\t", "\n"}).Draw(t, "blankPath"))
+				broken = "blank bundle path"
 				continue
 			}
 			p := filepath.Join(dir, fmt.Sprintf("bundle-%d-%d.pem", s.Intn(1<<30), i))
